@@ -9,7 +9,7 @@
 From Coq Require Import QArith Reals.
 From Flocq Require Import Core.Core IEEE754.BinarySingleNaN.
 From SC Require Import Base.Prelude Cmp.Cmp Cmp.Logic Cmp.Tolerance Cmp.FloatB64 Cmp.GoTime Cmp.Spec Cmp.LogicProofs Cmp.ToleranceProofs Cmp.FloatB64Proofs
-  Cmp.GoTimeProofs Cmp.CmpProofs Cmp.CmpTableProofs Cmp.SpecSymProofs Cmp.CollEquiv Cmp.CollEquivProofs Cmp.C16Judge Cmp.TreeProofs Cmp.JudgeProofs Cmp.CollJudgeProofs Cmp.MaskJudgeProofs
+  Cmp.GoTimeProofs Cmp.CmpProofs Cmp.CmpTableProofs Cmp.SpecSymProofs Cmp.CollEquiv Cmp.CollEquivProofs Cmp.C16Judge Cmp.TreeProofs Cmp.JudgeProofs Cmp.CollJudgeProofs Cmp.MaskJudgeProofs Cmp.CollLossy Cmp.CollLossyProofs
   Resource.Impl Resource.Pull Resource.PullProofs.
 Open Scope Z_scope.
 
@@ -426,6 +426,126 @@ Example C16_nonvacuous_stream :
   [nv_msg 0 0; nv_msg 1 0].
 Proof. vm_compute. reflexivity. Qed.
 
+(* ---- combinator TREES: ValueAnd / ValueOr nested to any depth, over ANY leaf comparers ---- *)
+(* the (equal, ok) pair of a tree is (the formula over its applicable members, some leaf applies):
+   a conjunction skips the members that do not apply, a disjunction only counts members that apply
+   -- however deep, and whatever (equal, _) a non-applicable member reports *)
+Theorem C16_tree_verdict : forall (L : Type) (f : L -> vcmp) (t : ctree L) x y,
+  tree_cmp f t x y = (tree_says f t x y, tree_applies f t x y).
+Proof. exact tree_verdict. Qed.
+
+Theorem C16_tree_answers_iff_some_leaf_applies : forall (L : Type) (f : L -> vcmp) (t : ctree L) x y,
+  answers (tree_cmp f t) x y = true <-> exists l, In l (tree_leaves t) /\ answers (f l) x y = true.
+Proof. exact tree_answers_iff_some_leaf. Qed.
+
+(* nested ValueAnds flatten to the conjunction over the APPLICABLE leaves, nested ValueOrs to the
+   disjunction over them *)
+Theorem C16_and_tree_is_conj_of_applicable_leaves : forall (L : Type) (f : L -> vcmp) (t : ctree L) x y,
+  all_and t = true ->
+  negb (tree_applies f t x y) || tree_says f t x y
+  = forallb (fun l => negb (answers (f l) x y) || says (f l) x y) (tree_leaves t).
+Proof. exact and_tree_flattens. Qed.
+
+Theorem C16_or_tree_is_disj_of_applicable_leaves : forall (L : Type) (f : L -> vcmp) (t : ctree L) x y,
+  all_or t = true ->
+  tree_applies f t x y && tree_says f t x y
+  = existsb (fun l => answers (f l) x y && says (f l) x y) (tree_leaves t).
+Proof. exact or_tree_flattens. Qed.
+
+(* cmp.Equal(t) for every tree t over the tolerance comparers: symmetric on all pairs of possibly-nil wf
+   messages, reflexive for non-negative tolerances, and on guarded messages the reference equality
+   whose leaf is the tree's ideal (the exact tolerances combined over the applicable members) *)
+Theorem C16_tree_equal_symmetric : forall t x y, existsb is_durp (tree_leaves t) = false ->
+  opt_wf x = true -> opt_wf y = true -> model_tree t x y = model_tree t y x.
+Proof. exact model_tree_symmetric. Qed.
+
+Theorem C16_tree_equal_reflexive : forall t x, forallb vcfg_guard (tree_leaves t) = true ->
+  existsb is_durp (tree_leaves t) = false -> opt_wf x = true -> model_tree t x x = true.
+Proof. exact model_tree_reflexive. Qed.
+
+Theorem C16_tree_whole_message_is_ideal : forall t x y,
+  ecfg_guard (EAnd (tree_leaves t)) = true -> has_durp (EAnd (tree_leaves t)) = false ->
+  tree_ok (EAnd (tree_leaves t)) x = true -> tree_ok (EAnd (tree_leaves t)) y = true ->
+  model_tree t x y = ideal_tree t x y.
+Proof. exact tree_model_is_ideal. Qed.
+
+(* ValueOr(TimeValueWithin(2), ValueAnd(FloatValueApprox(0, 1/4))) on timestamps 5 and 7 ns apart...:
+   the time leaf decides although the And (not applicable to a Timestamp) reports equal = true *)
+Example C16_nonvacuous_tree :
+  let t := TOr [TLeaf (VTime 1); TAnd [TLeaf (VFloat 0 (1#4))]] in
+  let x := Some (nv_msg (1#2) 5) in let y := Some (nv_msg (1#2) 7) in let z := Some (nv_msg (1#2) 6) in
+  let c := KG true (KPair x y (false, false) (false, false)
+              [OTree t (false, false, true, true); OTree (TOr [TLeaf (VTime 2); TAnd [TLeaf (VFloat 0 (1#4))]]) (true, true, true, true)]) in
+  model_tree t x y = false /\ model_tree t x z = true /\
+  model_t (TAnd [TLeaf (VFloat 0 (1#4))]) (CM ts_full true [] []) (CM ts_full true [] []) = (true, false) /\
+  (agrees c && C16_guard c && in_scope_all c && C16_ok c) = true.
+Proof. repeat split; vm_compute; reflexivity. Qed.
+
+(* ---- Collection.Pull WITHOUT backpressure under an equivalence: the merge stage composed with the held map ---- *)
+Section LossyProps.
+  Variable M : Type.
+  Variable rmask : Type.
+  Variable r_filter : rmask -> M -> M.
+  (* the merge-stage model (Excess/MergeExcess.v) works on tokens: any injective naming of ids, any valuation *)
+  Variable name : Z -> string.
+  Variable code : string -> Z.
+  Hypothesis code_name : forall i, code (name i) = i.
+  Variable val : Z -> M.
+  Variable kind_of : Z -> kind.
+
+  (* for EVERY schedule of the merge stage (any interleaving of writes arriving and the subscription's loop
+     taking changes) and every history of writes, what mergeCollectionExcess hands on is a chained history
+     again: the old value of a merged change (a REPLACE included) is the new value of the previous change
+     handed on for that id *)
+  Theorem C16_collection_lossy_history_chained : forall l v0,
+    MergeExcess.no_close l = true -> Change.valid_script (MergeExcess.sent_of l) v0 = true ->
+    ev_chained_from (dview name code val v0) (handed_on name val kind_of l).
+  Proof. intros. apply merged_history_chained; assumption. Qed.
+
+  (* ... and so the loop delivers a merged change exactly when its new value is NOT equivalent to what the
+     subscriber holds for that id -- every schedule, history, comparer, read mask and include filter *)
+  Theorem C16_collection_lossy_delivers_iff_not_equivalent_to_held :
+    forall cmp (ro : ropts M rmask) l v0 (h : heldmap M) (w : view M),
+    MergeExcess.no_close l = true -> Change.valid_script (MergeExcess.sent_of l) v0 = true ->
+    held_inv h w (seen r_filter ro (dview name code val v0)) ->
+    c_forward_held r_filter (Some cmp) ro h (handed_on name val kind_of l)
+    = ideal_filter cmp w (offered r_filter ro (handed_on name val kind_of l)).
+  Proof. intros. eapply lossy_delivers_iff_not_equivalent_to_held; eassumption. Qed.
+
+  (* a seeded subscriber holds the seed as sent: a REPLACE of a seeded id is compared with the seed value *)
+  Theorem C16_collection_lossy_seeded :
+    forall cmp (ro : ropts M rmask) (sd : list (cchange M)) l v0,
+    MergeExcess.no_close l = true -> Change.valid_script (MergeExcess.sent_of l) v0 = true ->
+    (forall k, holds_after (fun _ => None) sd k = None -> seen r_filter ro (dview name code val v0) k = None) ->
+    c_forward_held r_filter (Some cmp) ro (held_of_seeds sd) (handed_on name val kind_of l)
+    = ideal_filter cmp (holds_after (fun _ => None) sd) (offered r_filter ro (handed_on name val kind_of l)).
+  Proof. intros. eapply lossy_seeded; eassumption. Qed.
+End LossyProps.
+
+(* the naming hypothesis is satisfiable on all of Z *)
+Example C16_nonvacuous_lossy_naming : forall i, nv_code (nv_name i) = i.
+Proof. exact nv_code_name. Qed.
+
+(* a reader behind while "a" (seeded 1) is deleted and re-added as 1.25 and "b" (seeded 5) as 7, under a margin
+   of 0.5: the merge stage hands on two REPLACEs; the one of "a" is not delivered, the one of "b" is; the case
+   passes agrees, guard and the oracle *)
+Definition nv_mark (s : string) : cval :=
+  CM "sc.go.test.TestAllTypes" true [("default_double"%string, CS (CF64 (FFin 1048576))); ("default_string"%string, CS (CStr s))] [].
+Definition nv_d (d : Q) : cval := CM "sc.go.test.TestAllTypes" true [("default_double"%string, CS (CF64 (FFin d)))] [].
+Example C16_nonvacuous_lossy :
+  let init := [("a"%string, nv_d 1); ("b"%string, nv_d 5)] in
+  let ph := [("pp"%string, Some (nv_mark "plug-0")); ("a"%string, None); ("a"%string, Some (nv_d (5#4)));
+             ("b"%string, None); ("b"%string, Some (nv_d 7)); ("zz"%string, Some (nv_mark "barrier-0"))] in
+  let em := [("a"%string, None, Some (nv_d 1)); ("b"%string, None, Some (nv_d 5)); ("pp"%string, None, Some (nv_mark "plug-0"));
+             ("b"%string, Some (nv_d 5), Some (nv_d 7)); ("zz"%string, None, Some (nv_mark "barrier-0"))] in
+  let c := KG true (KCollL (EAnd [VFloat 0 (1#2)]) false None init [ph] em) in
+  map Change.ckind (merged_changes init [ph]) = [1; 4; 4; 1] /\
+  (agrees c && C16_guard c && C16_ok c) = true /\
+  (* the same stream with the REPLACE of "a" delivered as well is rejected by the oracle *)
+  C16_ok (KCollL (EAnd [VFloat 0 (1#2)]) false None init [ph]
+            (firstn 3 em ++ [("a"%string, Some (nv_d 1), Some (nv_d (5#4)))] ++ skipn 3 em)) = false.
+Proof. repeat split; vm_compute; reflexivity. Qed.
+
 (* the hypotheses of C16_judge_sound hold of a non-trivial pair case and of a drifting stream *)
 Example C16_nonvacuous_judge_sound :
   let c1 := KG true (KPair (Some (nv_msg (1#2) 5)) (Some (nv_msg (3#4) 7)) (false, false) (false, false)
@@ -498,3 +618,13 @@ Print Assumptions C16_collection_updates_only.
 Print Assumptions C16_collection_no_equivalence_unchanged.
 Print Assumptions C16_collection_v0_right_for_equivalence_relations.
 Print Assumptions C16_whole_message_is_ideal.
+Print Assumptions C16_collection_lossy_history_chained.
+Print Assumptions C16_collection_lossy_delivers_iff_not_equivalent_to_held.
+Print Assumptions C16_collection_lossy_seeded.
+Print Assumptions C16_tree_verdict.
+Print Assumptions C16_tree_answers_iff_some_leaf_applies.
+Print Assumptions C16_and_tree_is_conj_of_applicable_leaves.
+Print Assumptions C16_or_tree_is_disj_of_applicable_leaves.
+Print Assumptions C16_tree_equal_symmetric.
+Print Assumptions C16_tree_equal_reflexive.
+Print Assumptions C16_tree_whole_message_is_ideal.
